@@ -17,7 +17,8 @@ from vlib import docrun as D
 RULE = ('(1) input forms: generated documents and alphabet strings passed as one str, every 2-chunk split (all split points '
         'for sources <=40 characters, a spread otherwise) as list / tuple / generator, drawn k-chunk splits with empty '
         'chunks, list of lines, list of single characters, io.StringIO and a real file: identical canonical tree, text, '
-        'char_pos_to_line answers, and identical exception class when parsing fails. (2) hash seeds: a corpus (generated '
+        'char_pos_to_line answers, and identical exception class when parsing fails; documents of 8 K .. 128 K characters '
+        '(exact sizes around powers of two) as StringIO / file / lines / 4096-character chunks against the one-string parse. (2) hash seeds: a corpus (generated '
         'documents, alphabet strings and every sizing prefix x delimiter followed by each of | . ( a or nothing) is parsed '
         'in fresh interpreters with different PYTHONHASHSEED values; the digests of (outcome, tree, text) must agree. '
         '(3) isolation: histories that interleave parses of several sources (with different options: skip_envs, tolerance) '
@@ -146,9 +147,18 @@ SPECIALS = ['\\textbf x', 'see \\label key', '\\section[short] Title', '\\def\\x
             '$\\left\\| v \\right\\| \\leq \\left\\lvert x \\right\\rvert \\big\\lbrace \\bigg\\lVert$',
             '$\\left\\{ x \\mid x \\right\\} \\left\\langle a \\right\\rangle \\left\\lfloor b \\right\\rfloor \\big\\lbrack \\bigg\\langle$',
             '\\noindent a $x \\cup y \\in z \\cap \\infty \\notin w$',
+            # uses of commands that a later source declares
+            '$\\argmaxx {x} \\opp [y]{z}$ \\mymac {a}[b] \\begin{mythm}[t] c\\end{mythm}',
             # declarations that a parser must not remember for later parses (kept LAST: references of the other
             # sources are taken before this one is parsed for the first time)
-            '\\lstnewenvironment{mycode}{}{} \\newenvironment{note}{}{} \\DefineVerbatimEnvironment{e}{Verbatim}{} \\newcommand{\\x}[1]{#1}']
+            '\\lstnewenvironment{mycode}{}{} \\newenvironment{note}{}{} \\DefineVerbatimEnvironment{e}{Verbatim}{} \\newcommand{\\x}[1]{#1}'
+            ' \\DeclareMathOperator{\\argmaxx}{arg\\,max} \\DeclareMathOperator*{\\opp}{op} \\newtheorem{mythm}{Theorem} \\def\\mymac#1{#1}'
+            ' \\DeclareRobustCommand{\\mymac}{m} \\NewDocumentCommand{\\mymac}{m}{#1} \\let\\opp\\argmaxx \\makeatletter \\catcode`\\@=11'
+            + ''.join(' \\%s{\\argmaxx}{\\opp} \\%s*{mythm}' % (n, n) for n in G.EXTRA_NAMES)]
+MALFORMED = ['\\begin{e}a {b} $c$', 'a {b \\x[c', '$a \\x{b}', '\\begin{e}\\begin{f}x\\end{e}', '\\begin{itemize}\\item a\\end{enumerate}', '}',
+             '\\section{' * 400]
+DEEP_LEVELS = 1400
+DEEP_SOURCE = '{' * DEEP_LEVELS + 'a' + '}' * DEEP_LEVELS
 OPTIONS = [{}, {'skip_envs': ('note',)}, {'skip_envs': ('mycode', 'e')}, {'tolerance': 1}, {'skip_envs': ('note', 'mycode'), 'tolerance': 1}]
 
 
@@ -210,6 +220,22 @@ def run_isolation(sources, refs, ops, case, res=None):
     from TexSoup import TexSoup
     live = []      # (source index, options index, soup, snapshot text, snapshot canon, edited?)
     flags = set()
+    limit0 = sys.getrecursionlimit()
+
+    def deep_outcome():
+        o = T.outcome(DEEP_SOURCE, 0)
+        return o[0] if o[0] == 'ok' else o[1]
+    deep0 = deep_outcome()
+
+    def process_state(step):
+        # a parse - successful or failed - leaves no process-wide trace that a later parse could feel
+        if sys.getrecursionlimit() != limit0:
+            raise H.Violation('C17:isolation:process-state', case, 'after step %d the interpreter recursion limit is %d, was %d' % (
+                step, sys.getrecursionlimit(), limit0))
+        d = deep_outcome()
+        if d != deep0:
+            raise H.Violation('C17:isolation:process-state', case, 'after step %d a %d-deep source gives %s, before the history %s' % (
+                step, DEEP_LEVELS, d, deep0))
 
     def fresh_checks(step):
         trees = []
@@ -246,6 +272,13 @@ def run_isolation(sources, refs, ops, case, res=None):
     fresh_checks(0)
     for k, (code, a, b) in enumerate(ops):
         code = code % 4
+        if code in (0, 1) and (a + b) % 5 == 0:
+            # a parse that fails half-way
+            try:
+                TexSoup(MALFORMED[(a + b) // 5 % len(MALFORMED)], **OPTIONS[0 if code == 0 else (b % 2) * 2])
+            except (EOFError, TypeError, AssertionError, RecursionError):
+                flags.add('failed-parse-before-reparse')
+            process_state(k + 1)
         if code in (0, 1):
             si = a % len(sources)
             oi = 0 if code == 0 else b % len(OPTIONS)
@@ -265,6 +298,7 @@ def run_isolation(sources, refs, ops, case, res=None):
             l[5] = True
             flags.add('edit-before-reparse')
         fresh_checks(k + 1)
+    process_state(len(ops) + 1)
     return flags
 
 
@@ -273,7 +307,9 @@ def run_isolation(sources, refs, ops, case, res=None):
 def plan(ctx):
     return [('shard_forms', [('forms', ctx.pick(60, 3000), i) for i in range(16)]),
             ('stage_hashseeds', [('hash', ctx.pick(16, 96), ctx.pick(700, 4000))]),
-            ('shard_isolation', [('iso', ctx.pick(60, 1500), i) for i in range(16)])]
+            ('shard_isolation', [('iso', ctx.pick(60, 1500), i) for i in range(16)]),
+            ('shard_bigforms', [('big', size, form) for size in ctx.pick((8191, 8193, 65535, 65537, 131073), (8191, 8192, 8193, 65535, 65536, 65537, 131073, 262145, 300000))
+                                for form in ('stringio', 'file', 'lines', 'gen-chunks-4096')])]
 
 
 def shard_forms(ctx, shard):
@@ -359,6 +395,75 @@ def stage_hashseeds(ctx, shard):
     return res
 
 
+BIG_UNIT = '\\section{S%d} text $x_{%d}$ and \\textbf{b%d} %% c\n\\begin{itemize}\\item a%d \\item[l] b\\end{itemize}\n\n'
+
+
+def big_source(size):
+    """A well-formed document of exactly `size` characters (buffer / block sizes of readers are powers of two)."""
+    parts, n, k = [], 0, 0
+    while True:
+        u = BIG_UNIT % (k, k, k, k)
+        if n + len(u) > size:
+            break
+        parts.append(u)
+        n += len(u)
+        k += 1
+    return ''.join(parts) + 'x' * (size - n)
+
+
+def check_bigform(size, form, tmpdir):
+    from TexSoup import TexSoup
+    src = big_source(size)
+    case = {'sub': 'bigforms', 'size': size, 'form': form, 'src': 'big_source(%d)' % size}
+
+    def summary(x):
+        try:
+            soup = TexSoup(x)
+        except Exception as e:  # noqa - the class is what is compared
+            return ('raise', type(e).__name__)
+        txt = str(soup)
+        return ('ok', hashlib.sha1(txt.encode('utf-8', 'replace')).hexdigest(), len(txt), len(list(soup.children)),
+                tuple(soup.char_pos_to_line(len(txt) * k // 5) for k in range(5)) if txt else ())
+
+    ref = summary(src)
+    if ref[0] != 'ok' or ref[2] != len(src):
+        raise H.Violation('C17:big-source:does-not-round-trip', case, 'as one string: %r' % (ref[:3],))
+    if form == 'stringio':
+        got = summary(io.StringIO(src))
+    elif form == 'lines':
+        got = summary(src.splitlines(True))
+    elif form.startswith('gen-chunks-'):
+        k = int(form.rsplit('-', 1)[1])
+        got = summary(src[i:i + k] for i in range(0, len(src), k))
+    else:
+        path = os.path.join(tmpdir, 'big.tex')
+        with open(path, 'w', encoding='utf-8', newline='') as f:
+            f.write(src)
+        with open(path, encoding='utf-8', newline='') as f:
+            got = summary(f)
+    if got != ref:
+        raise H.Violation('C17:input-form:%s:large' % form.split('-')[0], case,
+                          'a document of %d characters read as %s gives %r, as one string %r' % (size, form, got, ref))
+    return case
+
+
+def shard_bigforms(ctx, shard):
+    _, size, form = shard
+    H.import_repo()
+    res = H.Result()
+    tmp = tempfile.mkdtemp(prefix='c17big.')
+    try:
+        try:
+            case = check_bigform(size, form, tmp)
+        except H.Violation as v:
+            res.violations.append(v.record())
+        else:
+            res.case((size, form), True, sample={'size': size, 'form': form}, classes=['bigform:' + form, 'bigform-size>=%d' % (size // 65536 * 65536)])
+    finally:
+        shutil.rmtree(tmp, ignore_errors=True)
+    return res
+
+
 def shard_isolation(ctx, shard):
     _, n, idx = shard
     H.import_repo()
@@ -387,7 +492,13 @@ def shard_isolation(ctx, shard):
 
 def replay(case):
     sub = case.get('sub')
-    if sub == 'isolation':
+    if sub == 'bigforms':
+        tmp = tempfile.mkdtemp(prefix='c17big.')
+        try:
+            check_bigform(int(case['size']), case['form'], tmp)
+        finally:
+            shutil.rmtree(tmp, ignore_errors=True)
+    elif sub == 'isolation':
         sources = case['sources']
         run_isolation(sources, [None] * len(sources), [tuple(o) for o in case['ops']], dict(case))
     elif sub == 'hashseed':
